@@ -23,6 +23,8 @@ type LoopSpec struct {
 	Path    string
 	Counter string
 	Invs    []*Clause
+	Hints   []*Clause
+	Applies []*Clause
 	Decr    *Clause
 }
 
@@ -124,7 +126,7 @@ var clauseKeywords = map[string]bool{
 	"spec": true, "axiom": true, "lemma": true, "type": true, "func": true,
 	"props": true, "trusted": true, "pure": true, "requires": true, "ensures": true,
 	"modifies": true, "ghost": true, "use": true, "on": true, "after": true, "before": true,
-	"loop": true, "invariant": true, "decreases": true, "nonnil": true, "lock": true,
+	"loop": true, "invariant": true, "hint": true, "apply": true, "decreases": true, "nonnil": true, "lock": true,
 	"lockinv": true, "guarantee": true, "rely": true, "fresh": true, "exit": true, "flows": true, "assigns": true, "assumes": true, "holds": true, "allocates": true, "nilable": true, "nosafety": true, "using": true,
 }
 
@@ -517,6 +519,16 @@ func parseContractFile(path string, requirePrefix bool) (*ContractFile, error) {
 				return nil, errf(rc, "invariant outside loop")
 			}
 			curL.Invs = append(curL.Invs, parseClause("invariant", rc.rest, path, rc.line))
+		case "apply":
+			if curL == nil {
+				return nil, errf(rc, "apply outside loop")
+			}
+			curL.Applies = append(curL.Applies, &Clause{Kind: "apply", Expr: strings.TrimSpace(rc.rest), File: path, Line: rc.line})
+		case "hint":
+			if curL == nil {
+				return nil, errf(rc, "hint outside loop")
+			}
+			curL.Hints = append(curL.Hints, parseClause("hint", rc.rest, path, rc.line))
 		case "decreases":
 			if curL == nil {
 				return nil, errf(rc, "decreases outside loop")
